@@ -4,8 +4,10 @@ name=$1; tier=${2:-quick}
 prop=$(python3 -c "import json;print(json.load(open('/verif/seeded/$name/meta.json'))['property'])")
 cd /repo && git diff --quiet || { echo "/repo dirty"; exit 2; }
 git -C /repo apply /verif/seeded/$name/patch.diff || { echo "apply failed"; exit 2; }
+cp /verif/evidence/$prop.json /tmp/evidence-$prop.bak 2>/dev/null
 cd /verif && ./check $prop $tier > /tmp/seeded-$name.out 2>&1; rc=$?
 git -C /repo checkout -- . 
+cp /tmp/evidence-$prop.bak /verif/evidence/$prop.json 2>/dev/null
 nv=$(grep -c '^VIOLATION' /tmp/seeded-$name.out)
 echo "$name property=$prop rc=$rc violations=$nv"
 grep '^FAILED-OBLIGATION' /tmp/seeded-$name.out | cut -c1-220 | head -5
